@@ -198,6 +198,22 @@ def r2_cleanup(ctx):
             (ctx.ok if ok else ctx.violation)('C13.R2', 'C13.R2/remove_transitions_to_default/%s' % role, fn.path, fn.site(), {'calls': [T.show(('call',) + c)[:200] for c in rets]}, cfg)
         ctx.obligation(nret >= 1)
         (ctx.ok if nret >= 1 else ctx.violation)('C13.R2', 'C13.R2/remove_transitions_to_default/leaf-present', fn.path, fn.site(), None, cfg)
+        # cleanup: a default is chosen first and the transitions into the (declared or chosen) default are dropped last,
+        # so that no explicit transition duplicates the default the automaton state will carry
+        an = analyse(ctx, cfg, SIC + '::cleanup', [], uninterpreted=lambda p: True)
+        ip, fn = an.ip, an.fn
+        nret = 0
+        for o in an.rets:
+            nret += 1
+            seq = [c[0].rsplit('::', 1)[1] for c in o.state.calls if c[0].startswith(SIC + '::')]
+            recv = [c[1][0] for c in o.state.calls if c[0].startswith(SIC + '::')]
+            ok = ('choose_default_successor' in seq and seq[-1] == 'remove_transitions_to_default' and
+                  max(i for i, n_ in enumerate(seq) if n_ == 'choose_default_successor') < len(seq) - 1 and
+                  all(root_of(r) == s for r in recv))
+            ctx.obligation(ok)
+            (ctx.ok if ok else ctx.violation)('C13.R2', 'C13.R2/cleanup/chooses-default-then-drops-transitions-into-it', fn.path, fn.site(), {'calls': seq}, cfg)
+        ctx.obligation(nret >= 1)
+        (ctx.ok if nret >= 1 else ctx.violation)('C13.R2', 'C13.R2/cleanup/leaf-present', fn.path, fn.site(), None, cfg)
 
 
 def r3_state(ctx):
